@@ -332,6 +332,7 @@ func cmdCheck(args []string) {
 	// extra deciding commands (e.g. the assembly verifier)
 	var extras []map[string]interface{}
 	for _, c := range pc.Extra {
+		c = strings.ReplaceAll(c, "{repo}", *repo)
 		cmd := osexec.Command("sh", "-c", c)
 		cmd.Dir = *vdir
 		cmd.Env = append(os.Environ(), "VERIF_TIER="+*tier, fmt.Sprintf("VERIF_SEED=%d", seed), "VERIF_PROPERTY="+id)
